@@ -77,6 +77,32 @@ def container_mutants(data, prefix=""):
                         yield f"{prefix}OPT@{i}[{k}]={v:#x}", _subst(chunks, i, bytes(nd))
 
 
+def ranged_cval_positions(data):
+    """Chunk indices (top level) of CVAL chunks that belong to a RANGED controller of a specified module type."""
+    from rvmc import spec
+
+    by_type = {t.type: t for t in spec.types().values()}
+    out = set()
+    cur, k = None, 0
+    for i, (cid, d) in enumerate(codec.parse_chunks(data)):
+        if cid == b"SFFF":
+            cur, k = None, 0
+        elif cid == b"STYP":
+            cur = by_type.get(d.split(b"\0")[0].decode("utf8", "replace"))
+        elif cid == b"CVAL":
+            if cur is not None and k < len(cur.controllers) and cur.controllers[k].kind in ("range", "compact", "no_offset", "dependent"):
+                out.add(i)
+            k += 1
+    return out
+
+
+def _is_ranged_cval_mutant(data, label):
+    import re
+
+    m = re.match(r"^CVAL@(\d+)=", label or "")
+    return bool(m) and int(m.group(1)) in ranged_cval_positions(data)
+
+
 def _subst(chunks, i, payload):
     new = list(chunks)
     new[i] = (chunks[i][0], payload)
@@ -298,6 +324,8 @@ def run_case(case):
             data = dict(container_mutants(data))[case["mutant"]]
             key["mutant"] = mutant_class(case["mutant"])
         _st, vs, _h = chain(data, cycles, key)
+        if _st == "unloadable" and not vs and _is_ranged_cval_mutant(open(os.path.join(treeenv.FIXTURES, case["fixture"]), "rb").read(), case.get("mutant")):
+            vs = [C.viol("out-of-range-value-not-tolerated-on-load", dict(key), {"mutant": case["mutant"]})]
     else:
         import rv.api as rv
 
@@ -335,6 +363,10 @@ def _task(t):
         for label, x in items:
             key = {"file": rel} if label is None else {"file": rel, "mutant": mutant_class(label)}
             st, vs, h = chain(x, cycles, key)
+            if st == "unloadable" and not vs and _is_ranged_cval_mutant(data, label):
+                # the fixture itself loads; only one stored controller value was changed: "files whose stored values are
+                # outside the known ranges" are in the quantifier, so this file must load too (whatever the error class)
+                vs = [C.viol("out-of-range-value-not-tolerated-on-load", dict(key), {"mutant": label})]
             for v in vs:
                 v["case"] = {"fixture": rel, "mutant": label, "cycles": cycles}
             r["evals"] += 1
